@@ -9,7 +9,7 @@ def run(R):
     rng = R.rng
     quick = R.tier == 'quick'
     R.rule = ('byte strings: catalogue vectors, all 65536 two-byte inputs (every table index under every preceding high byte), '
-              'every length 0..300 (quick) / 0..2000 (thorough) with random contents, 0x00/0xFF runs, a long random buffer; '
+              'every length 0..300 (quick) / 0..2000 (thorough) with random contents, 0x00/0xFF runs, long random buffers of odd and even length around 1k..64k (thorough: up to 1 MiB+1), alternating byte-order call sequences; '
               'distinct = distinct input; non-trivial = non-empty input')
     R.assumptions = ['R6 bitwise CRCs validated on the catalogue check values 31C3 / E3069283']
     idx16, idx32 = set(), set()
@@ -55,6 +55,26 @@ def run(R):
         one(b'\x00' * n)
         one(b'\xff' * n)
     one(rng.randbytes(20000 if quick else 1 << 18), True)
+    # long inputs of every parity and around the sizes where an implementation might switch strategy (word-wise loops, chunking, C fast paths)
+    longs = [1023, 1024, 1025, 2047, 2049, 4095, 4096, 4097, 4099, 8191, 8193, 16385, 32767, 32769, 65535, 65536, 65537] + [rng.randrange(301, 70000) | 1 for _ in range(4)] + \
+        [rng.randrange(301, 70000) & ~1 for _ in range(4)]
+    if not quick:
+        longs += [(1 << 17) + 1, (1 << 18) - 1, (1 << 20) + 1] + [rng.randrange(70000, 300000) for _ in range(6)]
+    for i, n in enumerate(longs):
+        if i % R.nshards == R.shard:
+            one(rng.randbytes(n))
+            R.cover('long_lengths', n)
+            R.count('long_inputs')
+    # the same data again with the other byte order / the other function first: a result depends on the arguments of the call only
+    for n in (0, 1, 9, 300, 5001):
+        d = rng.randbytes(n)
+        w32 = crcref.crc32c(d)
+        seq = [crc32c(d, 'big'), crc32c(d), crc32c(d, 'little'), crc32c(d, 'big'), crc32c(bytearray(d), 'big'), crc32c(d + b'\x00', 'big'), crc32c(d, 'little')]
+        want = [w32.to_bytes(4, 'big'), w32.to_bytes(4, 'little'), w32.to_bytes(4, 'little'), w32.to_bytes(4, 'big'), w32.to_bytes(4, 'big'),
+                crcref.crc32c(d + b'\x00').to_bytes(4, 'big'), w32.to_bytes(4, 'little')]
+        R.check(seq == want, 'crc32c-call-sequence', 'crc32c results depend on the calls made before (same data, alternating byte order)', {'data': d[:64], 'len': n})
+        R.check([crc16(d), crc16(d + b'\x00'), crc16(b'\x00' + d), crc16(d)] == [crcref.crc16_xmodem(x).to_bytes(2, 'big') for x in (d, d + b'\x00', b'\x00' + d, d)],
+                'crc16-call-sequence', 'crc16 of data / data+00 / 00+data in sequence', {'data': d[:64], 'len': n})
     R.extra['table_indices_crc16'] = len(idx16)
     R.extra['table_indices_crc32c'] = len(idx32)
     R.counters['idx16'] = len(idx16)
@@ -63,6 +83,7 @@ def run(R):
         R.floor('idx16', 256)
         R.floor('idx32', 256)
         R.floor('two_byte_inputs', 65536)
+        R.floor('long_inputs', 20)
 
 
 def replay(R, w, rec):
